@@ -20,6 +20,7 @@ pub fn scenario(tier: &str) -> (Life, Bounds) {
         horizon: None,
         big: false,
         tick_faults: false,
+        bystander: false,
     };
     let b = if th {
         Bounds { max_depth: 400, wall_cap_s: 1500.0, ..Default::default() }
